@@ -102,37 +102,44 @@ def _replay_slip(stem, vals):
 
 
 @group('strain.kernels', files=[STRF], functions=['Strain.strain_c', 'Strain.rotation_c', 'Strain.invariant1_c', 'Strain.invariant2_c', 'Strain.invariant3_c', 'Strain.angularvelocity_c'],
-       clause='for every correspondence tensor G: strain = sym(I-G), rotation = skew(I-G), invariants = trace, second invariant 1/2((tr e)^2 - tr(e.e)), determinant; angular velocity = length of the axial vector',
+       clause='for every correspondence tensor G (read through the public properties of a Strain object holding G): strain = sym(I-G), rotation = skew(I-G), strain invariants = trace, second invariant 1/2((tr e)^2 - tr(e.e)), determinant; angular velocity = length of the axial vector of the rotation',
        replay=_replay)
 def strain_kernels(E, L):
     M = L.load(STRF)
     n = 2
     G = E.reals('G', (n, 3, 3))
-    st = M.strain_c(G)
-    ro = M.rotation_c(G)
+    # through the public properties of a Strain object whose correspondence tensor is G (whatever kernels the properties are computed with)
+    so = object.__new__(M.Strain)
+    for nm in ('strain', 'invariant1', 'invariant2', 'invariant3', 'angularvelocity', 'rotation', 'nye'):
+        setattr(so, '_Strain__' + nm, None)
+    so._Strain__G = G
+    st = so.strain
+    ro = so.rotation
     E.prove('strain_c.shape', st.shape == (n, 3, 3) and ro.shape == (n, 3, 3))
     I = lambda j, k: 1 if j == k else 0
+    half = realconst(Fraction(1, 2))
+    e = [[[((I(j, k) - G[i, j, k]) + (I(k, j) - G[i, k, j])) * half for k in range(3)] for j in range(3)] for i in range(n)]      # the specification's strain
     for i in range(n):
         for j in range(3):
             for k in range(3):
                 E.prove('strain_c.post[%d,%d,%d]' % (i, j, k), st[i, j, k] * 2 == (I(j, k) - G[i, j, k]) + (I(k, j) - G[i, k, j]))
                 E.prove('rotation_c.post[%d,%d,%d]' % (i, j, k), ro[i, j, k] * 2 == (I(j, k) - G[i, j, k]) - (I(k, j) - G[i, k, j]))
                 E.prove('strain_plus_rotation_is_I_minus_G[%d,%d,%d]' % (i, j, k), st[i, j, k] + ro[i, j, k] == I(j, k) - G[i, j, k])
-    # invariants on an arbitrary (not necessarily symmetric) tensor array
-    T = E.reals('T', (n, 3, 3))
-    i1, i2, i3 = M.invariant1_c(T), M.invariant2_c(T), M.invariant3_c(T)
+    i1, i2, i3 = so.invariant1, so.invariant2, so.invariant3
     for i in range(n):
-        tr = T[i, 0, 0] + T[i, 1, 1] + T[i, 2, 2]
+        T = e[i]
+        tr = T[0][0] + T[1][1] + T[2][2]
         tr2 = None
-        for a, b in itertools.product(range(3), repeat=2):
-            t = T[i, a, b] * T[i, b, a]
+        for a_, b_ in itertools.product(range(3), repeat=2):
+            t = T[a_][b_] * T[b_][a_]
             tr2 = t if tr2 is None else tr2 + t
+        d3 = (T[0][0] * (T[1][1] * T[2][2] - T[1][2] * T[2][1]) - T[0][1] * (T[1][0] * T[2][2] - T[1][2] * T[2][0]) + T[0][2] * (T[1][0] * T[2][1] - T[1][1] * T[2][0]))
         E.prove('invariant1_c.trace[%d]' % i, i1[i] == tr)
         E.prove('invariant2_c.second_invariant[%d]' % i, i2[i] * 2 == tr * tr - tr2)
-        E.prove('invariant3_c.determinant[%d]' % i, i3[i] == det3(T[i]))
-    av = M.angularvelocity_c(ro)
+        E.prove('invariant3_c.determinant[%d]' % i, i3[i] == d3)
+    av = so.angularvelocity
     for i in range(n):
-        w = [ro[i, 1, 2], ro[i, 0, 2], ro[i, 0, 1]]
+        w = [((I(1, 2) - G[i, 1, 2]) - (I(2, 1) - G[i, 2, 1])) * half, ((I(0, 2) - G[i, 0, 2]) - (I(2, 0) - G[i, 2, 0])) * half, ((I(0, 1) - G[i, 0, 1]) - (I(1, 0) - G[i, 1, 0])) * half]
         E.prove('angularvelocity_c.post[%d]' % i, And(av[i] >= 0, av[i] * av[i] == w[0] * w[0] + w[1] * w[1] + w[2] * w[2]))
     E.canary('strain.kernels.canary', st[0, 0, 0] == 0)
 
@@ -494,22 +501,31 @@ def strain_cache(E, L):
     st.clear_properties()
     E.prove('cache.cleared_at_run_time', all(getattr(st, '_Strain' + nm) is None for nm in cached))
     st._Strain__G = G
-    want_strain = M.strain_c(G)
-    want_rot = M.rotation_c(G)
+    half_ = realconst(Fraction(1, 2))
+    Id = lambda j, k: 1 if j == k else 0
+
+    def spec_strain(Gx):
+        return snp.asarray(_np.array([[[((Id(j, k) - Gx[0, j, k]) + (Id(k, j) - Gx[0, k, j])) * half_ for k in range(3)] for j in range(3)]], dtype=object))
+
+    def spec_rot(Gx):
+        return snp.asarray(_np.array([[[((Id(j, k) - Gx[0, j, k]) - (Id(k, j) - Gx[0, k, j])) * half_ for k in range(3)] for j in range(3)]], dtype=object))
+    want_strain = spec_strain(G)
+    want_rot = spec_rot(G)
     for j in range(3):
         for k in range(3):
             E.prove('cache.strain_recomputed[%d,%d]' % (j, k), st.strain[0, j, k] == want_strain[0, j, k])
             E.prove('cache.rotation_recomputed[%d,%d]' % (j, k), st.rotation[0, j, k] == want_rot[0, j, k])
     E.prove('cache.invariant_recomputed', st.invariant1[0] == want_strain[0, 0, 0] + want_strain[0, 1, 1] + want_strain[0, 2, 2])
-    E.prove('cache.angular_velocity_recomputed', st.angularvelocity[0] == M.angularvelocity_c(want_rot)[0])
+    av_ = st.angularvelocity[0]
+    E.prove('cache.angular_velocity_recomputed', And(av_ >= 0, av_ * av_ == want_rot[0, 1, 2] * want_rot[0, 1, 2] + want_rot[0, 0, 2] * want_rot[0, 0, 2] + want_rot[0, 0, 1] * want_rot[0, 0, 1]))
     # a second state on the same object: new G, clear, read again
     G2 = E.reals('G2', (1, 3, 3))
     st.clear_properties()
     st._Strain__G = G2
     for j in range(3):
         for k in range(3):
-            E.prove('cache.rotation_follows_new_G[%d,%d]' % (j, k), st.rotation[0, j, k] == M.rotation_c(G2)[0, j, k])
-            E.prove('cache.strain_follows_new_G[%d,%d]' % (j, k), st.strain[0, j, k] == M.strain_c(G2)[0, j, k])
+            E.prove('cache.rotation_follows_new_G[%d,%d]' % (j, k), st.rotation[0, j, k] == spec_rot(G2)[0, j, k])
+            E.prove('cache.strain_follows_new_G[%d,%d]' % (j, k), st.strain[0, j, k] == spec_strain(G2)[0, j, k])
 
 # ----------------------------------------------------------------------------
 # callee contracts this property's proofs ASSUME are part of this check (modular verification carries the property only if the assumed contract is itself
